@@ -49,17 +49,17 @@ def decision_paths(w: World, fi, term):
     return out
 
 
-def _mk_term(mapping_log: dict, flag_name: str):
+def _mk_term(mapping_log: dict, flag_name: str, tape: str = 'tape', cache: str = 'cache'):
     def term(e: ast.AST) -> str:
         txt = ast.unparse(e)
         t = txt.replace(' ', '').replace('"', "'")
-        if t == "cache['timestamp']":
+        if t == f"{cache}['timestamp']":
             mapping_log['T'] = txt
             return 'T'
         if t in ('int(time())', 'int(time.time())'):
             mapping_log['NOW'] = txt
             return 'NOW'
-        if t == f"tape.flags['{flag_name}']":
+        if t == f"{tape}.flags['{flag_name}']":
             mapping_log['THR'] = txt
             return 'THR'
         if 'int.from_bytes(' in t and 'signed' not in t:
@@ -99,7 +99,7 @@ def run(w: World, rep: Report):
         fi = w.handler_for(op)
         rep.covered('handlers', fi.name)
         mp = {}
-        term = _mk_term(mp, flag)
+        term = _mk_term(mp, flag, fi.params[0], fi.params[2])
         paths = decision_paths(w, fi, term)
         if not paths:
             raise AnalysisError(f'{op}: no non-raising path')
@@ -171,6 +171,27 @@ def run(w: World, rep: Report):
         rt = None
     if rt is not None and hasattr(rt, 'c16_builders'):
         rt.c16_builders(w, rep)
+
+
+def timestamp_table(w: World, rep: Report, rule: str):
+    """The decision table of OP_CHECK_TIMESTAMP as one instance (used by the lock properties whose
+    statements depend on it)."""
+    fi = w.handler_for('OP_CHECK_TIMESTAMP')
+    mp = {}
+    term = _mk_term(mp, 'ts_threshold', fi.params[0], fi.params[2])
+    paths = decision_paths(w, fi, term)
+    true_f = L.f_or([f for f, puts in paths if puts == [TRUE]])
+    want_txt = 'T >= C and (THR <= 0 or T - NOW < THR)'
+    want = L.formula(ast.parse(want_txt, mode='eval').body)
+    try:
+        eq, cex, atoms = L.equivalent(true_f, want)
+    except AnalysisError:
+        eq = False
+    ok = eq and all(k in mp for k in ('T', 'C', 'NOW', 'THR')) and \
+        all(len(p) == 1 and p[0] in (TRUE, FALSE) for _, p in paths)
+    rep.check(rule, f'functions.{fi.name}|decision-table', ok, line=fi.node.lineno, file=REL,
+              why='' if ok else f'OP_CHECK_TIMESTAMP yields true exactly when {L.show(true_f)}; the time locks are '
+              f'specified against {want_txt}')
 
 
 def verify_form(w: World, fi, base_op: str):
